@@ -617,6 +617,17 @@ func runOne(e *env, o *c.Out, name string, seed uint64) {
 			}
 		}
 	}
+	// the Host of the request: absent (HTTP/1.0), malformed, foreign
+	if r.Chance(1, 10) {
+		h := c.Pick(r, []string{"", "", "[", "a b", "ca.verif.test:99999", "%zz", strings.Repeat("h", 4000), "\u00fc.example", "[::1]:443", ":", "evil.example"})
+		req.Host = h
+		req.URL.Host = h
+		if h == "" {
+			req.Header.Set("X-Verif-No-Host", "1")
+			req.Proto, req.ProtoMajor, req.ProtoMinor = "HTTP/1.0", 1, 0
+		}
+		mut += "+host"
+	}
 	res := e.srv.Serve(req, 5*time.Second)
 	out := "ok"
 	switch {
